@@ -132,7 +132,8 @@ def api_cases(ctx):
         for k in (2, 3, 4):
             for mode in ("mixed",) + dagproj.SPELLINGS:
                 yield from with_control(f"shared{k}", dagproj.gen_shared(rng, k, mode))
-            yield from with_control(f"shared{k}py", dagproj.gen_shared(rng, k, py=True))
+            for kind in ("py", "pk", "dir"):
+                yield from with_control(f"shared{k}{kind}", dagproj.gen_shared(rng, k, kind=kind))
 
 
 def check_api_stream(ctx, gen, chunk=20000):
@@ -164,7 +165,7 @@ def check_api(ctx, cases, seeds=None):
     for i, ((tag, s), a) in enumerate(zip(cases, answers)):
         an = dagproj.analyse(s)
         nt = len(s["tasks"]) >= 1 and (an["ill"] or any(t["deps"] or t["after"] for t in s["tasks"]))
-        canon = ["api", [[t["id"], t["deps"], t["prods"], t["after"], t.get("after_style")] for t in s["tasks"]], s.get("py"), s.get("wrap")]
+        canon = ["api", [[t["id"], t["deps"], t["prods"], t["after"], t.get("after_style")] for t in s["tasks"]], s.get("py"), s.get("wrap"), s.get("pk"), s.get("dirs")]
         ctx.case(canon, nt, {"layer": "api", "tasks": [{k: t[k] for k in ("id", "deps", "prods", "after") if t.get(k) or k == "id"} for t in s["tasks"]],
                              "py": s.get("py"), "ill_formed": an["ill"], "impl": a.get("res")})
         ctx.dist[f"api:{tag.split('-')[0]}"] += 1
@@ -222,6 +223,8 @@ def e2e_cases(ctx):
     for c in pick:
         T, cols, aft = c
         s = dagproj.small_to_spec(c, rng.randrange(27), rng.randrange(1 << len(cols)) if rng.random() < 0.3 else 0, one_module=rng.random() < 0.7)
+        if rng.random() < 0.5:
+            dagproj.add_kinds(rng, s)
         dagproj.add_spellings(rng, s)
         s["stale"] = rng.random() < 0.4
         cases.append(("small", s))
@@ -236,7 +239,8 @@ def e2e_cases(ctx):
         for k in (2, 3, 4):
             for mode in ("mixed", rng.choice(dagproj.SPELLINGS)):
                 cases.append((f"shared{k}", dagproj.gen_shared(rng, k, mode)))
-            cases.append((f"shared{k}py", dagproj.gen_shared(rng, k, py=True)))
+            for kind in ("py", "pk", "dir"):
+                cases.append((f"shared{k}{kind}", dagproj.gen_shared(rng, k, kind=kind)))
     # every ill-formed project is repaired and built again anyway (second build); add independent well-formed controls up to >= 50 %
     n_ill = sum(1 for _, s in cases if dagproj.analyse(s)["ill"])
     n_well = len(cases) - n_ill
@@ -245,6 +249,9 @@ def e2e_cases(ctx):
         if not dagproj.analyse(s)["ill"]:
             cases.append(("control", s))
             n_well += 1
+    # every project is built under options that must not matter for well-formedness
+    for _, s in cases:
+        s["opts"] = dagproj.gen_opts(rng)
     return cases
 
 
@@ -253,10 +260,11 @@ def run_one_e2e(server, spec):
     try:
         rec = {"hashseed": server.hashseed}
         rec["forms"] = dagproj.materialise(root, spec, stale=spec.get("stale", False))
-        rec["existing1"] = [n for n in {x for t in spec["tasks"] for x in t["deps"] + t["prods"]} if project.node_path(root, n).exists()]
+        rec["existing1"] = [n for n in {x for t in spec["tasks"] for x in t["deps"] + t["prods"]} if dagproj.node_file(root, spec, n).exists()]
         pre = dagproj.snapshot(root)
         project.clear_log(root)
-        obs = server.build(root, {})
+        opts = dict(spec.get("opts") or {})
+        obs = server.build(root, opts)
         obs["log"] = project.read_log(root)
         rec["obs1"] = obs
         rec["untouched"] = dagproj.snapshot(root) == pre
@@ -264,9 +272,9 @@ def run_one_e2e(server, spec):
             spec2 = dagproj.repair(spec)
             rec["spec2"] = spec2
             dagproj.materialise(root, spec2, stale=False)
-            rec["existing2"] = [n for n in {x for t in spec2["tasks"] for x in t["deps"] + t["prods"]} if project.node_path(root, n).exists()]
+            rec["existing2"] = [n for n in {x for t in spec2["tasks"] for x in t["deps"] + t["prods"]} if dagproj.node_file(root, spec2, n).exists()]
             project.clear_log(root)
-            obs2 = server.build(root, {})
+            obs2 = server.build(root, dict(opts, dry_run=False))
             obs2["log"] = project.read_log(root)
             rec["obs2"] = obs2
         return rec
@@ -274,7 +282,7 @@ def run_one_e2e(server, spec):
         shutil.rmtree(root, ignore_errors=True)
 
 
-def _model_build(drv, spec, existing, obs):
+def _model_build(drv, spec, existing, obs, force=False, dry=False):
     """Replay one real build in the model; returns list of differences."""
     py = set(spec.get("py", []))
     for ln in dagproj.model_lines(spec):
@@ -284,7 +292,7 @@ def _model_build(drv, spec, existing, obs):
     exist = set(existing) | {n for t in spec["tasks"] for n in t["deps"] if n in py and n not in prods}
     drv.ask(dagproj.model_fs_line(spec, exist))
     picks, _ = engine.derive_picks(obs)
-    ans = drv.ask(f"engine.build force=0 dry=0 maxfail=inf selk=none selm=none picks={','.join(map(str, picks))}")
+    ans = drv.ask(f"engine.build force={int(bool(force))} dry={int(bool(dry))} maxfail=inf selk=none selm=none picks={','.join(map(str, picks))}")
     out = []
     if not ans.startswith("ok "):
         return [("model rejects the observed schedule", picks, ans)]
@@ -318,13 +326,20 @@ def check_e2e(ctx, cases):
         obs = rec["obs1"]
         ids = sorted(t["id"] for t in s["tasks"])
         canon = ["e2e", [[t["id"], t["module"], t["deps"], t["prods"], t["after"], t.get("after_style"), sorted(t.get("spell", {}).items())] for t in s["tasks"]],
-                 s.get("py"), s.get("stale")]
+                 s.get("py"), s.get("stale"), s.get("pk"), s.get("dirs"), s.get("subdirs"), sorted((s.get("opts") or {}).items())]
         ctx.case(canon, an["ill"] or any(t["deps"] or t["after"] for t in s["tasks"]),
                  {"layer": "e2e", "tasks": [{k: t[k] for k in ("id", "deps", "prods", "after", "spell") if t.get(k) or k == "id"} for t in s["tasks"]],
                   "py": s.get("py"), "ill_formed": an["ill"], "exit": obs.get("exit"), "second_build_exit": rec.get("obs2", {}).get("exit")})
         ctx.dist[f"e2e:{tag.split('-')[0]}"] += 1
         ctx.dist["e2e:ill" if an["ill"] else "e2e:well"] += 1
         ctx.dist[f"e2e:exit={obs.get('exit')}"] += 1
+        for k_, v_ in (s.get("opts") or {}).items():
+            ctx.dist[f"e2e:opt:{k_}={v_}"] += 1
+        ctx.dist[f"e2e:subdirs={bool(s.get('subdirs'))}"] += 1
+        used = {x for t in s["tasks"] for x in t["deps"] + t["prods"]}
+        for kind in ("py", "pk", "dirs"):
+            if used & set(s.get(kind, [])):
+                ctx.dist[f"e2e:has-{kind}"] += 1
         for f in rec["forms"].values():
             ctx.dist[f"e2e:after-form={f}"] += 1
         for t in s["tasks"]:
@@ -333,34 +348,36 @@ def check_e2e(ctx, cases):
         if an["cycle"]:
             ctx.dist[f"e2e:cyclelen={min(an['cycle_len'], 12)}"] += 1
         rep = {"layer": "e2e", "spec": s, "tag": tag}
-        desc = f"tasks {[[t['id'], t['deps'], t['prods'], t['after']] for t in s['tasks']]}, py {s.get('py')}"
+        desc = (f"tasks {[[t['id'], t['deps'], t['prods'], t['after']] for t in s['tasks']]}, py {s.get('py')}, pickle {s.get('pk')}, "
+                f"directory nodes {s.get('dirs')}, module folders {bool(s.get('subdirs'))}, options {s.get('opts')}")
         if obs.get("raised") or obs.get("died"):
             ctx.violation(f"build() raised {obs.get('raised')} ({desc})", dict(rep, expect="no-raise"), None)
             continue
         started = [int(x[1]) for x in obs["log"] if x[0] == "S"]
         if an["ill"]:
             if obs.get("exit") != 4:
-                _report(ctx, f"reject: ill-formed project ended with exit code {obs.get('exit')} instead of 4, bodies run: {started} "
+                _report(ctx, f"reject (exit code): ill-formed project ended with exit code {obs.get('exit')} instead of 4, bodies run: {started} "
                              f"(cycle={an['cycle']} shared={an['shared']}; {desc})", dict(rep, expect="rejected"), an)
             else:
                 if started or obs.get("reports"):
-                    ctx.violation(f"reject: exit code 4 but task bodies ran / tasks were reported: log {started}, reports {obs.get('reports')} ({desc})",
+                    ctx.violation(f"reject (bodies ran): exit code 4 but task bodies ran / tasks were reported: log {started}, reports {obs.get('reports')} ({desc})",
                                   dict(rep, expect="rejected"), None)
                 if not rec["untouched"]:
-                    ctx.violation(f"reject: a rejected build changed files under data/ ({desc})", dict(rep, expect="rejected"), None)
+                    ctx.violation(f"reject (files changed): a rejected build changed files under data/ ({desc})", dict(rep, expect="rejected"), None)
                 o2 = rec["obs2"]
                 started2 = sorted(int(x[1]) for x in o2["log"] if x[0] == "S")
                 if o2.get("exit") != 0 or started2 != ids:
-                    ctx.violation(f"reject: after repairing the declarations the next build must execute every task once: exit {o2.get('exit')}, "
+                    ctx.violation(f"reject (next build): after repairing the declarations the next build must execute every task once: exit {o2.get('exit')}, "
                                   f"executed {started2}, tasks {ids} (state recorded by the rejected build?) ({desc})", dict(rep, expect="rejected"), None)
         else:
             if obs.get("exit") == 4:
                 ctx.violation(f"accept: well-formed project rejected with exit code 4 ({desc})", dict(rep, expect="accepted"), None)
         if drv is not None:
             drv.ask("engine.reset")
-            dis = _model_build(drv, s, rec["existing1"], obs)
+            o = s.get("opts") or {}
+            dis = _model_build(drv, s, rec["existing1"], obs, o.get("force"), o.get("dry_run"))
             if not dis and "obs2" in rec:
-                dis = _model_build(drv, rec["spec2"], rec["existing2"], rec["obs2"])
+                dis = _model_build(drv, rec["spec2"], rec["existing2"], rec["obs2"], o.get("force"), False)
                 dis = [("second build: " + d[0], d[1], d[2]) for d in dis]
             ctx.traces_validated += 1
             for what, iv, mv in dis[:1]:
